@@ -57,7 +57,9 @@ class Sequence(AbstractSequence):
         self.sequence = Seq(data)
         self.alphabet = alphabet
         self.id = id
-        self.sequence_type = type
+        # the canonical member for "chromosome" / "sequence_chunk" (equal strings and members hash alike, so value-keyed
+        # caches would otherwise hand back whichever spelling they saw first)
+        self.sequence_type = SequenceType.sequence_type_str_to_type(type) if isinstance(type, str) else type
         self.parent = make_parent(parent) if parent else None
         self._len = len(self.sequence)
         if validate_parent and self.parent and self.parent.location and len(self.parent.location) != len(self):
